@@ -156,11 +156,21 @@ func (m *MapV) del(k Value) {
 func (m *MapV) hasSymKeys() bool { return false }
 
 type mapIter struct {
-	m *MapV
-	i int
+	m     *MapV
+	i     int
+	start int // rotation: iteration begins at this position and wraps (Go's order is unspecified)
+	n0    int // number of slots when the iteration began
 }
 
 func (it *mapIter) next() Tuple {
+	// first the slots that existed at the start (rotated), then anything appended meanwhile
+	for it.i < it.n0 {
+		i := (it.start + it.i) % it.n0
+		it.i++
+		if it.m.live[i] {
+			return Tuple{BoolV{C: true}, it.m.keys[i], it.m.vals[i]}
+		}
+	}
 	for it.i < len(it.m.keys) {
 		i := it.i
 		it.i++
